@@ -91,6 +91,7 @@ func c07Run(c *Ctx) {
 	sentinel := &Opt{ID: d.NewID(), Field: "Fsentinel", Long: "zz-sentinel-flag", T: TypeSpec{K: KBool, W: WSlice}, Grp: d.Root.G, Cmd: d.Root}
 	d.Root.G.Opts = append(d.Root.G.Opts, sentinel)
 	d.Opts = append(d.Opts, sentinel)
+	sentinelTok := "--" + d.FullLong(sentinel) // (the parser's own group may carry a namespace)
 	var target *Cmd
 	if len(d.Cmds) > 1 && r.Chance(3, 4) {
 		target = d.Cmds[r.Intn(len(d.Cmds))]
@@ -273,7 +274,7 @@ func c07Run(c *Ctx) {
 			calls = append(calls, unkCall{option, v, ok, append([]string{}, a...)})
 			switch hmode {
 			case 0:
-				return append([]string{"--zz-sentinel-flag"}, a...), nil
+				return append([]string{sentinelTok}, a...), nil
 			case 1:
 				return a, nil
 			case 3:
@@ -282,7 +283,7 @@ func c07Run(c *Ctx) {
 				}
 				return []string{}, nil
 			}
-			return []string{"--zz-sentinel-flag", "--zz-sentinel-flag"}, nil
+			return []string{sentinelTok, sentinelTok}, nil
 		}
 	}
 	if policy == "ignore" && (c.K/3)%3 == 2 {
@@ -383,14 +384,7 @@ func c07Run(c *Ctx) {
 					if !a.Val.IsValid() {
 						continue
 					}
-					var vals []string
-					if a.IsRest() {
-						for i := 0; i < a.Val.Len(); i++ {
-							vals = append(vals, a.Val.Index(i).String())
-						}
-					} else if a.Val.String() != "" {
-						vals = append(vals, a.Val.String())
-					}
+					vals := posStrings(a)
 					for _, x := range vals {
 						if !tokset[x] {
 							c.Violate("ignore:cluster:altered", "positional value %q is not an input token (cluster %q)", x, tok)
